@@ -175,10 +175,10 @@ var protos = []proto{
 			}
 			return o
 		}},
-	{Name: "http", Type: "http", Net: "tcp", Port: 80, Gen: genHTTP([]string{"/", "/a", "/b?c=d", "/idx.html"}, 1, 3, false), Extract: extractHTTP("http")},
-	{Name: "elasticsearch", Type: "elasticsearch", Net: "tcp", Port: 9200, OneReq: true, Gen: genHTTP([]string{"/", "/_search", "/_cat/indices"}, 1, 1, false), Extract: extractHTTP("elasticsearch")},
+	{Name: "http", Type: "http", Net: "tcp", Port: 80, Gen: genHTTP([]string{"/", "/a", "/b?c=d", "/idx.html"}, 1, 3, true), Extract: extractHTTP("http")},
+	{Name: "elasticsearch", Type: "elasticsearch", Net: "tcp", Port: 9200, OneReq: true, Gen: genHTTP([]string{"/", "/_search", "/_cat/indices"}, 1, 1, true), Extract: extractHTTP("elasticsearch")},
 	{Name: "eos", Type: "eos", Net: "tcp", Port: 8888, OneReq: true, Gen: genHTTP([]string{"/v1/wallet/list_keys", "/v1/chain/get_info"}, 1, 1, false), Extract: extractHTTP("eos")},
-	{Name: "docker", Type: "docker", Net: "tcp", Port: 2375, OneReq: true, Gen: genHTTP([]string{"/version", "/info", "/containers/json", "/images/json"}, 1, 1, false), Extract: extractHTTP("docker")},
+	{Name: "docker", Type: "docker", Net: "tcp", Port: 2375, OneReq: true, Gen: genHTTP([]string{"/version", "/info", "/containers/json", "/images/json"}, 1, 1, true), Extract: extractHTTP("docker")},
 	{Name: "ethereum", Type: "ethereum", Net: "tcp", Port: 8545, OneReq: true,
 		Gen: func(r *core.Rng) ([][]byte, []string) {
 			m := r.PickS([]string{"eth_accounts", "net_version", "eth_blockNumber", "web3_clientVersion", "rpc_modules"})
@@ -419,7 +419,7 @@ func extractMemcached(evs []core.EvRec) []string {
 	return o
 }
 
-func genHTTP(targets []string, lo, hi int, _ bool) func(r *core.Rng) ([][]byte, []string) {
+func genHTTP(targets []string, lo, hi int, withBody bool) func(r *core.Rng) ([][]byte, []string) {
 	return func(r *core.Rng) ([][]byte, []string) {
 		var ch [][]byte
 		var ex []string
@@ -437,7 +437,12 @@ func genHTTP(targets []string, lo, hi int, _ bool) func(r *core.Rng) ([][]byte, 
 			}
 			hs := [][2]string{{"Host", "h.test"}, {"X-Tag", word(r)}}
 			ch = append(ch, gen.HTTPRequest(m, t, hs, body, body != nil && r.Chance(1, 3)))
-			ex = append(ex, "req:"+m+" "+t)
+			if withBody {
+				// the request's body is one of its decoded fields (the service records its first 1024 bytes)
+				ex = append(ex, "req:"+m+" "+t+" body="+string(body))
+			} else {
+				ex = append(ex, "req:"+m+" "+t)
+			}
 		}
 		return ch, ex
 	}
@@ -448,7 +453,11 @@ func extractHTTP(cat string) func(evs []core.EvRec) []string {
 		var o []string
 		for _, e := range evs {
 			if s(e, "category") == cat {
-				o = append(o, "req:"+s(e, "http.method")+" "+s(e, "http.url"))
+				if cat == "http" || cat == "docker" || cat == "elasticsearch" {
+					o = append(o, "req:"+s(e, "http.method")+" "+s(e, "http.url")+" body="+s(e, "payload"))
+				} else {
+					o = append(o, "req:"+s(e, "http.method")+" "+s(e, "http.url"))
+				}
 			}
 		}
 		return o
